@@ -83,8 +83,9 @@ harness_op(int argc, char **argv)
         sx_destroy(&r.node);
         hx_on = false;
         /* allocations made by the reader / released before it returned / released by destroying what it returned */
-        if (argc == 3) printf("%s heap=%zu/%zu/%zu ## %s heap=%zu/%zu/%zu", out, made, released, hx_frees, out, made, released, hx_frees);
-        else printf("%s heap=%zu/%zu/%zu", out, made, released, hx_frees);
+        /* model view: the three counts (how the reader allocates is the code's business); property view: what is
+         * still allocated once the returned tree has been destroyed - nothing may be */
+        printf("%s heap=%zu/%zu/%zu ## %s leaked=%ld", out, made, released, hx_frees, out, (long)made - (long)released - (long)hx_frees);
         free(out);
         free(s);
     } else if (strcmp(argv[0], "sx.deep") == 0 && argc == 3) {
